@@ -491,7 +491,8 @@ Fixpoint recs_ok (qn cn : list bytes) (written : wstore) (ops : list recop) : bo
    (old, new, the ID old had) waits for the next successful start, where the observed lookups of
    the two names decide which; anything else (both names with the ID, or neither) is a violation *)
 Record ost := mkOst { o_kq : list (bytes * N); o_kc : list (bytes * N); o_ks : list (bytes * N);
-                      o_written : wstore; o_pend : list (bytes * bytes * N) }.
+                      o_written : wstore; o_pend : list (bytes * bytes * N);
+                      o_newproc : bool (* a new process has begun since the last Rename *) }.
 
 Definition has (g : bytes -> option N) (n : bytes) (id : N) : bool :=
   match g n with Some x => x =? id | None => false end.
@@ -527,28 +528,29 @@ Fixpoint satisfies_from (o : ost) (t : list step) : bool :=
         let gq := fun n => lookup_o n qids in
         let gc := fun n => lookup n (d_c d) in
         let gs := fun n => lookup_o n sids in
-        (* only a new process reads the storage afresh: an in-process retry may answer from objects
-           loaded before the Rename *)
-        let '(rok, kq, ks, written) := if retry then (true, o_kq o, o_ks o, o_written o)
-                                       else resolve gq (o_pend o) (o_kq o) (o_ks o) (o_written o) in
+        (* only a process begun after the Rename reads the storage afresh: an in-process retry of an
+           older process may answer from objects loaded before the Rename *)
+        let fresh := negb retry || o_newproc o in
+        let '(rok, kq, ks, written) := if fresh then resolve gq (o_pend o) (o_kq o) (o_ks o) (o_written o)
+                                       else (true, o_kq o, o_ks o, o_written o) in
         rok &&
         reg_ok reg_qname_sys_last reg_qname_max kq gq qn &&
         reg_ok reg_cont_sys_last reg_cont_max (o_kc o) gc cn &&
         reg_ok (reg_first_singleton - 1) reg_max_singleton ks gs sn &&
         (let '(ok, written') := recs_ok qn cn written recs in
          ok && satisfies_from (mkOst (learn kq gq (dedup qn)) (learn (o_kc o) gc (dedup cn))
-                                     (learn ks gs (dedup sn)) written' (if retry then o_pend o else [])) rest)
-      else satisfies_from o rest
+                                     (learn ks gs (dedup sn)) written' (if fresh then [] else o_pend o) fresh) rest)
+      else satisfies_from (mkOst (o_kq o) (o_kc o) (o_ks o) (o_written o) (o_pend o) (negb retry || o_newproc o)) rest
   | TRename old new f code d :: rest =>
       let pend := filter (fun e => negb (touches old new e)) (o_pend o) in
       if code =? 0 then
-        satisfies_from (mkOst (move old new (o_kq o)) (o_kc o) (move old new (o_ks o)) (drop_written old (o_written o)) pend) rest
+        satisfies_from (mkOst (move old new (o_kq o)) (o_kc o) (move old new (o_ks o)) (drop_written old (o_written o)) pend false) rest
       else if code =? 1 then
         match lookup old (o_kq o) with
-        | Some id => satisfies_from (mkOst (o_kq o) (o_kc o) (o_ks o) (o_written o) ((old, new, id) :: pend)) rest
-        | None => satisfies_from o rest
+        | Some id => satisfies_from (mkOst (o_kq o) (o_kc o) (o_ks o) (o_written o) ((old, new, id) :: pend) false) rest
+        | None => satisfies_from (mkOst (o_kq o) (o_kc o) (o_ks o) (o_written o) pend false) rest
         end
       else satisfies_from o rest
   end.
 
-Definition satisfies (t : trace) : bool := satisfies_from (mkOst [] [] [] (mkWst [] []) []) (t_steps t).
+Definition satisfies (t : trace) : bool := satisfies_from (mkOst [] [] [] (mkWst [] []) [] true) (t_steps t).
